@@ -1,0 +1,76 @@
+//go:build verif
+
+package vgirpc
+
+import (
+	"encoding/json"
+	"net/http"
+	"net/http/httptest"
+)
+
+// Verification hooks for property C23 (authenticator failures map to the right
+// status; chains stop correctly). Add-only. Every constant below is read off
+// the compiled code by running it (never copied by hand): the closed reason
+// set is the candidate list filtered through AuthReason.known, the 401 shape
+// is what writeUnauthorized puts on a recorder, the error types are those of
+// the errors the package itself constructs.
+
+// VerifC23WWWAuthenticate returns the WWW-Authenticate value this server is
+// configured to put on a 401 ("" = none).
+func VerifC23WWWAuthenticate(h *HttpServer) string { return h.wwwAuthenticate }
+
+func init() {
+	verifConstProviders = append(verifConstProviders, func() []VerifConst {
+		var known []string
+		for _, r := range []AuthReason{
+			AuthReasonMissingCredential, AuthReasonInvalidCredential, AuthReasonExpiredCredential,
+			AuthReasonInsufficientScope, AuthReasonProxyRequired, AuthReasonUnauthorized,
+			"", "made_up", "Unauthorized", "unauthorized ", "forbidden",
+		} {
+			if r.known() {
+				known = append(known, string(r))
+			}
+		}
+		// what an exhausted chain returns
+		exType, exMsg := "", ""
+		func() {
+			defer func() { _ = recover() }()
+			_, err := ChainAuthenticate(func(*http.Request) (*AuthContext, error) {
+				return nil, &RpcError{Type: "ValueError", Message: "probe"}
+			})(nil)
+			if re, ok := err.(*RpcError); ok {
+				exType, exMsg = re.Type, re.Message
+			}
+		}()
+		permType := ""
+		if re, ok := Anonymous().RequireAuthenticated().(*RpcError); ok {
+			permType = re.Type
+		}
+		// the fixed parts of the standard 401, as rendered
+		cache, bodyErr := "", ""
+		func() {
+			defer func() { _ = recover() }()
+			h := &HttpServer{}
+			rec := httptest.NewRecorder()
+			h.writeUnauthorized(rec, httptest.NewRequest("POST", "/x", nil), AuthReasonUnauthorized, "")
+			cache = rec.Header().Get("Cache-Control")
+			var m map[string]any
+			if json.Unmarshal(rec.Body.Bytes(), &m) == nil {
+				bodyErr, _ = m["error"].(string)
+			}
+		}()
+		return []VerifConst{
+			verifList("c23_auth_reasons", known),
+			verifBytes("c23_reason_unauthorized", string(AuthReasonUnauthorized)),
+			verifBytes("c23_reason_insufficient_scope", string(AuthReasonInsufficientScope)),
+			verifBytes("c23_hdr_auth_reason", HeaderAuthReason),
+			verifBytes("c23_hdr_proxy_required", HeaderAuthProxyRequired),
+			verifNum("c23_default_retry_after", int64((&AuthUnavailableError{}).retryAfterSeconds())),
+			verifBytes("c23_chain_exhausted_type", exType),
+			verifBytes("c23_chain_exhausted_msg", exMsg),
+			verifBytes("c23_permission_error_type", permType),
+			verifBytes("c23_cache_control_401", cache),
+			verifBytes("c23_body_error_401", bodyErr),
+		}
+	})
+}
